@@ -19,6 +19,8 @@ import (
 	"bytes"
 	"context"
 	"crypto"
+	"crypto/sha256"
+	"encoding/hex"
 	"errors"
 	"fmt"
 	"io"
@@ -27,6 +29,7 @@ import (
 	"net/url"
 	"os"
 	"regexp"
+	"sort"
 	"strings"
 	"sync"
 	"time"
@@ -99,8 +102,30 @@ func (i *indexCache) load(key string) (NamedIndex, error) {
 	return result.idx, result.err
 }
 
+// verificationContext names what a parsed index depended on besides its bytes:
+// whether its signature was checked and, if it was, against which keys. A cached
+// result must only be handed to a request made in the same context.
+func verificationContext(u string, keys map[string][]byte, arch string, opts *indexOpts) string {
+	if !shouldCheckSignatureForIndex(u, arch, opts) {
+		return "unverified"
+	}
+	names := make([]string, 0, len(keys))
+	for name := range keys {
+		names = append(names, name)
+	}
+	sort.Strings(names)
+	h := sha256.New()
+	for _, name := range names {
+		fmt.Fprintf(h, "%d:%s%d:", len(name), name, len(keys[name]))
+		h.Write(keys[name])
+	}
+	return "verified:" + hex.EncodeToString(h.Sum(nil))
+}
+
 func (i *indexCache) get(ctx context.Context, repoName, repoURL string, keys map[string][]byte, arch string, opts *indexOpts) (NamedIndex, error) {
 	u := IndexURL(repoURL, arch)
+	// Cached results are kept per verification context, never shared across them.
+	cacheURL := u + "#" + verificationContext(u, keys, arch, opts)
 
 	ctx, span := otel.Tracer("go-apk").Start(ctx, fmt.Sprintf("indexCache.get(%q)", u))
 	defer span.End()
@@ -157,16 +182,16 @@ func (i *indexCache) get(ctx context.Context, repoName, repoURL string, keys map
 			return fetchAndParse(etag)
 		}
 
-		key := fmt.Sprintf("%s@%s", u, etag)
+		key := fmt.Sprintf("%s@%s", cacheURL, etag)
 
 		once, _ := i.onces.LoadOrStore(key, &sync.Once{})
 		once.(*sync.Once).Do(func() {
 			// If we've seen this URL before, delete any references to old indexes so we can GC them.
 			// Lock reads/writes to the map, without blocking the fetchAndParse goroutine.
 			i.etagMu.Lock()
-			prev, ok := i.urlToEtag[u]
+			prev, ok := i.urlToEtag[cacheURL]
 			if ok {
-				prevKey := fmt.Sprintf("%s@%s", u, prev)
+				prevKey := fmt.Sprintf("%s@%s", cacheURL, prev)
 				i.forget(prevKey)
 			}
 			i.etagMu.Unlock()
@@ -176,7 +201,7 @@ func (i *indexCache) get(ctx context.Context, repoName, repoURL string, keys map
 
 			// Record the current etag for this URL so we can GC it later.
 			i.etagMu.Lock()
-			i.urlToEtag[u] = etag
+			i.urlToEtag[cacheURL] = etag
 			i.etagMu.Unlock()
 		})
 
@@ -192,7 +217,7 @@ func (i *indexCache) get(ctx context.Context, repoName, repoURL string, keys map
 		}
 
 		mod := stat.ModTime()
-		before, ok := i.modtimes[u]
+		before, ok := i.modtimes[cacheURL]
 		if !ok || mod.After(before) {
 			b, err := os.ReadFile(u)
 			if err != nil {
@@ -201,14 +226,14 @@ func (i *indexCache) get(ctx context.Context, repoName, repoURL string, keys map
 			// If this is the first time or it has changed since the last time...
 			idx, err := parseRepositoryIndex(ctx, u, keys, arch, b, opts)
 			if err != nil {
-				i.store(u, nil, err)
+				i.store(cacheURL, nil, err)
 			} else {
-				i.store(u, NewNamedRepositoryWithIndex(repoName, repoRef.WithIndex(idx)), nil)
+				i.store(cacheURL, NewNamedRepositoryWithIndex(repoName, repoRef.WithIndex(idx)), nil)
 			}
-			i.modtimes[u] = mod
+			i.modtimes[cacheURL] = mod
 		}
 
-		return i.load(u)
+		return i.load(cacheURL)
 	}
 }
 
